@@ -1,6 +1,12 @@
 """Registry of claimed checks (drives tools/mkmanifest.py)."""
 
 REGISTRY = {
+    "C03": {
+        "text": "On 38 receiver kinds (every primitive type, plain/null-prototype objects, arrays, all nine typed arrays, ArrayBuffer, functions, arrows, bound functions, native and prototype methods, constructors, regexes, match results, errors incl. engine-raised ones, arguments, Math/JSON/console, eval, an exposed host function) x 16 access forms (read, computed read, typeof, call, write-then-read, delete, in, for-in, keys, stringify, instanceof, new, use as prototype, hasOwnProperty, descriptor, literal key) x every name of the host vocabulary (introspected at run time from every engine class and instance plus the attribute names of Python object/type/function/code/str/int/float/list/dict/..., about 900 names) each observation runs on a fresh context with an operand-stack type sanitizer in the step hook, and must equal the observation made with a never-used fresh name (names with an ECMAScript meaning on that receiver, asked of node, are excluded). Random and closure-heavy programs run under the same sanitizer; generated programs with id-tagged exposed-function call sites are checked offline: invocations = executed call sites, in order, arguments are JS values, and 30 non-calling access forms never invoke.",
+        "design_ref": "DESIGN.md 3/C03",
+        "note": "The sanitizer sees values that reach the operand stack (anything a script can hold passes through it). Whitelisted callables: exposed functions, callables of the initial global graph, native closures defined inside the microjs package. node is used only to decide which names are ECMAScript-defined on a receiver.",
+        "technique": "operand-stack type sanitizer at the step hook + fresh-name metamorphic oracle over receiver x form x host-vocabulary + offline invocation-log checker",
+    },
     "C11": {
         "text": "JSON-like Python values (boundary numbers incl. NaN, infinities, -0.0, 2^53 neighbours, 2^70; strings incl. NUL and non-BMP; empty containers; int/float/bool/None/tuple keys; shared sub-objects; nesting depth 60; seeded random structures) go through set/get/eval(name) and are compared with the stated mapping under typed deep equality; every returned container and the object passed to set is then mutated and the value read again (aliasing monitor) and container identities of successive results must be disjoint. The same space written as script literals is evaluated and converted. Argument vectors of length 0-6 over every JS value kind reach an exposed callable through six call forms (plain, method, call, apply, bind, nested) and are recorded by order, count and typed value; return values of every Python kind are inspected from the script side. An icontract postcondition on the real Context._to_python requires JSON-like output.",
         "design_ref": "DESIGN.md 3/C11",
